@@ -13,13 +13,25 @@ EXC = HERE + '/exceptional.json'
 
 # configuration ids of harness/src/bin/c13.rs
 FIELD_CFGS = {1: 't381_fq', 2: 't381_fq2', 3: 'c381_fq', 4: 'c381_fq2', 5: 'c377_fq', 6: 'c377_fq2',
-              7: 'c381_fr', 8: 'secp256k1_fq', 9: 'f127', 10: 'f101', 11: 'mnt4_753_fq'}
+              7: 'c381_fr', 8: 'secp256k1_fq', 9: 'f127', 10: 'f101', 11: 'mnt4_753_fq', 12: 'f103', 13: 'fm61'}
 # curve cfg -> (name, kind): kind 1 = SWU only, 2 = SWU + isogeny (WB), 3 = Elligator 2
 CURVE_CFGS = {21: ('t381_g1', 2), 22: ('t381_g2', 2), 23: ('c381_g1', 2), 24: ('c381_g2', 2),
               25: ('c377_g1', 2), 26: ('c377_g2', 2), 27: ('toy127_swu', 1), 28: ('toy127_wb', 2),
-              31: ('bandersnatch', 3), 32: ('toy101_ell2', 3)}
-TOY = {27, 28, 32}
-TOY_FIELDS = {9, 10}
+              31: ('bandersnatch', 3), 32: ('toy101_ell2', 3),
+              # Elligator 2 over primes p = 3 (mod 4), where the exceptional denominator 1 + Z u^2 HAS roots (-1 is a
+              # non-square, so -1/Z is a square for every non-square Z): F_103 (two curves: g(-J/K) square / non-square,
+              # Z = -1 / Z = 5), F_127 (Z = 3, cofactor 4), F_(2^61 - 1) (two curves, Z = -1 / Z = 3).  Over the
+              # p = 1 (mod 4) fields of cfg 31 / 32 that branch is dead code (seeded change C13/8 was missed for that reason)
+              33: ('toy103a_ell2', 3), 34: ('toy103b_ell2', 3), 35: ('toy127_ell2', 3),
+              36: ('m61a_ell2', 3), 37: ('m61b_ell2', 3)}
+TOY = {27, 28, 32, 33, 34, 35}
+TOY_FIELDS = {9, 10, 12}
+# which map(s) a curve kind executes, for the translator-failure escalation (see pre / gen)
+KIND_MAPS = {1: {'swu'}, 2: {'swu'}, 3: {'elligator2'}}
+# T-field table-2 targets owned by this package -> map name
+OWNED_TARGETS = {'gen_swu_map_to_curve': 'swu', 'gen_elligator2_map_to_curve': 'elligator2'}
+# maps whose translator obligation could not be re-established on the current source text (filled by pre())
+ESCALATE = set()
 
 # Effective cofactors (specification constants, not in the Rust configuration: the curve crates
 # clear the cofactor with endomorphism formulas).  RFC 9380 8.8.1 / 8.8.2 for BLS12-381;
@@ -61,7 +73,9 @@ def _run_harness(ctx, lines):
 def pre(ctx):
     """dump the constants of every configuration from the compiled Rust code (params.json) and solve
     for the exceptional inputs of the maps (exceptional.json, cached on the params digest)"""
+    n0 = len(ctx['notes'])
     _gen2_regen(ctx)
+    _escalation_from_notes(ctx, ctx['notes'][n0:])
     import vcheck
     ids = sorted(FIELD_CFGS) + sorted(CURVE_CFGS)
     outl = _run_harness(ctx, ['%d:params %x' % (OPS['params'], i) for i in ids])
@@ -320,7 +334,8 @@ def field_elem(rng, F, k=None):
 #   swu: gx1 QR / non-QR / zero ........................ random u (both), 'swu_g_root' where E' has 2-torsion, toy exhaustive
 #   swu: sign flip (parity(y) != parity(u)) ............ random u; exhaustive on F127
 #   wb: isogeny denominators vanish (kernel) ........... 'iso_kernel_u' when a rational u reaches a kernel point
-#   elligator2: den_1 == 0 ............................. 'ell_den0' (if -1/Z is a square), toy exhaustive
+#   elligator2: den_1 == 0 ............................. 'ell_den0': live only where -1/Z is a square, i.e. on cfg 33-37
+#                                                        (p = 3 mod 4); dead code on cfg 31 / 32 (p = 1 mod 4); toy exhaustive
 #   elligator2: gx1 QR / non-QR, sign, tv2 == 0 ........ 'ell_special_u', 'u=0' (x2 = 0 -> (0,0) -> identity), toy exhaustive
 #   hasher: Q0 = Q1, Q0 = -Q1 .......................... toy configurations (small groups: random messages collide)
 def gen(rng, tier):
@@ -328,6 +343,22 @@ def gen(rng, tier):
     EXC_D = exceptional(P)
     scale = 1 if tier == 'quick' else 12
     EXPECT.clear()
+
+    def esc(kind):
+        """case multiplier of a curve kind: 10 when the translator lost one of the maps this kind executes"""
+        return 10 if KIND_MAPS[kind] & ESCALATE else 1
+
+    def exc_inputs(cfg, F):
+        """(u, class) for u = 0, +-1 and every solved exceptional input of the configuration"""
+        ex = EXC_D.get(str(cfg), {})
+        us = [(F.zero, 'u=0'), (F.one, 'u=1'), (F.neg(F.one), 'u=-1')]
+        kernel_u = {tuple(c) for c in ex.get('iso_kernel_u', [])}
+        for k, lst in sorted(ex.items()):
+            if k == 'iso_den_roots':
+                continue
+            for c in lst:
+                us.append((F.of(c), 'iso_kernel_u' if tuple(c) in kernel_u else k))
+        return us
 
     # ---- fixed vectors (expected values checked in extra())
     for op, args, cls, exp in rfc_suite_cases(P):
@@ -348,7 +379,7 @@ def gen(rng, tier):
             fc = rng.choice([1, 2, 3, 5])
             yield h2f_case(fc, rng.choice([1, 2]), 128, bytes_of(rng, ml), bytes_of(rng, dl), 'h2f/grid/msg%d/dst%d' % (ml, dl))
     for _ in range(120 * scale):
-        fc = rng.choice([1, 1, 2, 2, 3, 4, 5, 6, 7, 8, 9, 10, 11])
+        fc = rng.choice([1, 1, 2, 2, 3, 4, 5, 6, 7, 8, 9, 10, 11, 12, 13])
         n = rng.choice([0, 1, 1, 2, 2, 2, 3, 5])
         sec = rng.choice([128, 128, 128, 0, 131, 132])
         ml = rng.choice(MSG_LENS + [rng.randrange(200)])
@@ -366,7 +397,7 @@ def gen(rng, tier):
 
     # ---- parity
     for _ in range(60 * scale):
-        fc = rng.choice([1, 2, 2, 4, 6, 6, 9])
+        fc = rng.choice([1, 2, 2, 4, 6, 6, 9, 12, 13])
         F = ref.Fld(field_args(P, fc))
         x, c = field_elem(rng, F)
         yield 'parity', [[fc], F.coords(x), [], field_args(P, fc)], 'parity/' + c
@@ -382,20 +413,24 @@ def gen(rng, tier):
                 yield 'wb', curve_args(P, cfg, [u], []), 'toy/wb/exhaustive'
             if kind == 3:
                 yield 'ell2', curve_args(P, cfg, [u], []), 'toy/ell2/exhaustive'
+        # the exceptional inputs once more under their own class (histogram: shows which exceptional branches are live
+        # on this configuration; the exhaustive stream above contains them anonymously)
+        for u, c in exc_inputs(cfg, F):
+            if c in ('u=0', 'u=1', 'u=-1'):
+                continue
+            if kind in (1, 2):
+                yield 'swu', curve_args(P, cfg, F.coords(u), []), name + '/swu/' + c
+            if kind == 2:
+                yield 'wb', curve_args(P, cfg, F.coords(u), []), name + '/wb/' + c
+            if kind == 3:
+                yield 'ell2', curve_args(P, cfg, F.coords(u), []), name + '/ell2/' + c
 
     # ---- maps on the shipped configurations
     for cfg in sorted(set(CURVE_CFGS) - TOY):
         name, kind = CURVE_CFGS[cfg]
         F = ref.Fld(P[str(cfg)][0])
-        ex = EXC_D.get(str(cfg), {})
-        us = [(F.zero, 'u=0'), (F.one, 'u=1'), (F.neg(F.one), 'u=-1')]
-        kernel_u = {tuple(c) for c in ex.get('iso_kernel_u', [])}
-        for k, lst in ex.items():
-            if k == 'iso_den_roots':
-                continue
-            for c in lst:
-                us.append((F.of(c), 'iso_kernel_u' if tuple(c) in kernel_u else k))
-        for _ in range((14 if F.deg == 1 else 8) * scale):
+        us = exc_inputs(cfg, F)
+        for _ in range((14 if F.deg == 1 else 8) * scale * esc(kind)):
             us.append(field_elem(rng, F, rng.choice([3, 4, 5, 6, 7])))
         for u, c in us:
             if kind == 2:
@@ -411,7 +446,7 @@ def gen(rng, tier):
     # ---- full hash
     for cfg in sorted(CURVE_CFGS):
         name, kind = CURVE_CFGS[cfg]
-        cnt = (40 if cfg in TOY else (6 if cfg in (22, 24, 26) else 10)) * scale
+        cnt = (40 if cfg in TOY else (6 if cfg in (22, 24, 26) else 10)) * scale * esc(kind)
         for _ in range(cnt):
             ml = rng.choice([0, 1, 3, 55, 56, 64, 65, rng.randrange(130)])
             dl = rng.choice([0, 1, 16, 43, 255, 256, rng.randrange(300)])
@@ -519,7 +554,8 @@ def xcheck_ok(case):
 XCHECK = {'quick': 48, 'thorough': 160}
 RULE = ('messages of length 0,1,55,56,64,65,1000 x tags of length 0,1,255,256,1000 (+ random), N in {0,1,2,3,5} and the '
         'length limits (largest accepted / first rejected request), SEC_PARAM in {0,128,131,132}; maps: u = 0, +-1, the '
-        'exceptional inputs solved from the configuration constants, random u, exhaustive enumeration on the toy fields; '
+        'exceptional inputs solved from the configuration constants (Elligator 2: five curves over p = 3 mod 4 where 1 + Z u^2 '
+        'has roots), random u, exhaustive enumeration on the toy fields; x10 on a map whose translator obligation was lost; '
         'RFC 9380 J.9.1/J.10.1 and repository vectors as fixed cases; non-trivial = message/tag/u not all zero')
 TRUSTED = ['sha2 crate (SHA-256 used by the Rust side) vs. the FIPS 180-4 model coq/C13/Sha256.v: tied only by the correspondence run',
            'C11 square-root / Legendre models and C03 curve-arithmetic models (imported, proved in their packages)',
@@ -545,6 +581,27 @@ EXTRA_PROP_FILES = ['Bridge2']
 # subgroup tests / endomorphisms incl. the bls12_381 and bn254 overrides) is regenerated from the working tree before the Coq
 # build; Props/Gen2.v (generated = the C13 / C09 / C12 models + corollaries) is a strict obligation
 STRICT_PROP_FILES = ['Gen2']
+
+
+def _escalation_from_notes(ctx, new_notes):
+    """props/Gen/pre2.py:regen reports a table-2 target it could not translate only as a note (the previous generated
+    definition is kept, so the strict obligation Props/Gen2.v keeps building -- against the OLD text).  For a target
+    this package owns that means: the tie between the Rust text and the proved model is gone for this run and the
+    correspondence run has to carry the map alone.  Not a violation by itself (DESIGN 4.2 E), but it must not be
+    silent: the generator spends 10x the cases on the affected map and adds every exceptional input of every
+    configured curve (gen: ESCALATE)."""
+    ESCALATE.clear()
+    for n in new_notes:
+        if 'T-field translator' not in n:
+            continue
+        hit = {m for t, m in OWNED_TARGETS.items() if t in n}
+        if not hit and ('could not translate the current source' in n or 'internal error' in n):
+            hit = set(OWNED_TARGETS.values())          # the whole table failed: every owned target is affected
+        ESCALATE.update(hit)
+    if ESCALATE:
+        ctx['notes'].append('C13: translator obligation NOT re-established for map(s) %s on the current source text '
+                            '(Props/Gen2.v was checked against the previous text only): generator escalated x10 for these maps, '
+                            'all exceptional inputs of all configured curves included' % ', '.join(sorted(ESCALATE)))
 
 
 def _gen2_regen(ctx):
